@@ -168,6 +168,11 @@ def gen_case(rng, malformed=False, kind=None, utc=True):
 
 
 def gen_cases(rng, tier):
+    # the case files instantiate the rounding function with the PrimFloat model; that file is kept out of
+    # the dependency closure of Props/C05.v on purpose (the theorems hold for every rounding function)
+    ok, log = common.make_targets(["Lib/PyRound.vo", "Model/C05_split.vo"])
+    if not ok:
+        raise RuntimeError("Lib/PyRound.v does not build: " + log[-500:])
     n = 330 if tier == "quick" else 5000
     out = []
     for k in range(n):
@@ -334,9 +339,9 @@ def _term(case, obs):
         hds = "[" + "; ".join(hds) + "]"
         h = c_holdout(call["holdout"], data)
         if fn == "crossfold_users":
-            m = f"crossfold_users {recs} {users} {cz(call['k'])} {h} {cbool(call['test_only'])} {d0} {hds}"
+            m = f"crossfold_users py_round_mul {recs} {users} {cz(call['k'])} {h} {cbool(call['test_only'])} {d0} {hds}"
         else:
-            m = (f"sample_users {recs} {users} {cz(call['size'])} {c_opt_z(call['repeats'])} {cbool(call['disjoint'])} "
+            m = (f"sample_users py_round_mul {recs} {users} {cz(call['size'])} {c_opt_z(call['repeats'])} {cbool(call['disjoint'])} "
                  f"{cbool(call['test_only'])} {h} {dl} {hds}")
     elif fn == "split_global_time":
         m = f"split_global_time {col} 0%Z {recs} {clist(call['cuts'], c_cut1)} {c_cut(call['end'])}"
